@@ -220,6 +220,26 @@ def rule_tables(prog):
         out.add("TokenType::look_ahead", "T2 look_ahead(%s) >= 1" % v, ok, c.loc(t["la_body"]["sp"]),
                 "open-ended token class `%s` can be extended by the next character; look-ahead must be >= 1 (is %s)"
                 % (v, la.get(v)), ("T2", "lexer"))
+    # the catch-all class: a character that is lexed as Unknown but is also the opener of a longer lexeme (the tick of a character
+    # literal) becomes that lexeme as soon as something follows
+    openers = set()
+    for lb in c.bodies:
+        if lb["name"] == "lex" and "impl_trait" in lb and "/tests" not in c.file_of(lb["sp"]) and any(
+                x.get("k") == "Path" and x["res"].get("ctor_of") == TT + "::Char" for x in hir.nodes(lb["body"])):
+            for call in hir.nodes(lb["body"], "Call"):
+                if (hir.callee(call) or "").endswith("complete::tag") and call["args"]:
+                    v = hir.lit_value(hir.strip(call["args"][0]))
+                    if isinstance(v, str) and len(v) == 1 and v not in static.values():
+                        openers.add(v)
+                if (hir.callee(call) or "").endswith("complete::char") and call["args"]:
+                    v = hir.lit_value(hir.strip(call["args"][0]))
+                    if isinstance(v, str) and len(v) == 1 and v not in static.values():
+                        openers.add(v)
+    if openers:
+        ok = la.get("Unknown") is not None and la["Unknown"] >= 1
+        out.add("TokenType::look_ahead", "T2 look_ahead(Unknown) >= 1", ok, c.loc(t["la_body"]["sp"]),
+                "%s alone is lexed as Unknown but opens a character literal: text typed behind it turns it into a Char token, so it must be "
+                "re-lexed when the change starts at its end (look_ahead is %s)" % (sorted(openers), la.get("Unknown")), ("T2", "lexer"))
     # T3: every static token occurs exactly once, with the right macro; class order
     for v, s in sorted(static.items()):
         if v == "Eof":
@@ -402,6 +422,44 @@ def rule_semtok_tables(prog):
                         r = n["res"]
                         if r.get("k") == "Def" and r["p"].startswith("lsp4spl::features::semantic_tokens::TOKEN_"):
                             used[f["name"]] = last(r["p"])
+    # the lexical classes: comments, numbers (Int, Hex, Char) and every keyword are mapped, by the token-kind mapper, to the class
+    # the property names (table frozen from the property text; predicates such as is_keyword() are evaluated from their match tables)
+    mapper = None
+    for b in c.bodies:
+        if not b["p"].startswith("lsp4spl::features::semantic_tokens") or "sig_in" not in b or "/tests" in c.file_of(b["sp"]):
+            continue
+        ins = [c.tstr(t_) for t_ in b["sig_in"]]
+        if ins and "tokens::Token" in ins[0] and "SemanticToken>" in c.tstr(b["sig_out"]).replace(" ", "") and "Option<" in c.tstr(b["sig_out"]):
+            if any(m_.get("k") == "Match" and any(v.startswith(TT + "::") for a_ in m_["arms"] for v in hir.pat_variants_all(a_["pat"]))
+                   for m_ in hir.nodes(b["body"])):
+                mapper = b
+    if mapper is None:
+        out.missing("token-kind -> semantic class mapper (fn(&Token, ..) -> Option<SemanticToken> matching on TokenType)")
+    else:
+        kw = token_tables(prog, Out("x"))
+        assigned = {}
+        for m_ in hir.nodes(mapper["body"], "Match"):
+            for arm in m_["arms"]:
+                vs = [last(v) for v in hir.pat_variants_all(arm["pat"]) if v.startswith(TT + "::")]
+                if not vs and arm.get("guard") is not None:
+                    for g in hir.nodes(arm["guard"], "MethodCall"):
+                        tb = _single_table(Out("x"), prog, g["m"], "tokens::TokenType", TT)
+                        if tb is not None:
+                            _, (_, table, default, _) = tb
+                            vs += [k_ for k_, v_ in table.items() if v_ is True]
+                cls = None
+                for pth in hir.nodes(arm["body"], "Path"):
+                    cp = pth["res"].get("ctor_of", "") or pth["res"].get("p", "")
+                    if "SemanticTokenType::" in cp:
+                        cls = last(cp)
+                for v in vs:
+                    assigned.setdefault(v, cls)
+        want = {"Comment": "Comment", "Int": "Number", "Hex": "Number", "Char": "Number"}
+        for k_ in (kw["is_keyword"] if kw else []):
+            want[k_] = "Keyword"
+        for v, cls in sorted(want.items()):
+            out.add("semantic_tokens::map_token", "T6 token kind %s carries the lexical class %s" % (v, cls), assigned.get(v) == cls,
+                    c.loc(mapper["sp"]), "%s is mapped to %s: tokens of this kind get no (or a wrong) semantic token" % (v, assigned.get(v)), ("T6", "lexclass"))
     out.add("SemanticTokensLegend", "T6 legend published from TOKEN_TYPES/TOKEN_MODIFIERS",
             used == {"token_types": "TOKEN_TYPES", "token_modifiers": "TOKEN_MODIFIERS"}, loc, "found %s" % used, ("T6",))
     return out
